@@ -366,6 +366,31 @@ pub fn run(ctx: &Ctx, rep: &mut Report) {
             },
         );
     }
+    // F6: every option value length 0..=1400 (and every total around MAX_SIZE it produces), two numbers
+    {
+        let radices = [1401u64, 2, 2];
+        let n = product(&radices);
+        ctx.family(
+            rep,
+            "F6-option-length-sweep",
+            "one option whose value has every length 0..=1400 x option number {11, 300} x payload {none, 1 byte}: limits L-1, L, L+1, MAX-1, MAX, MAX+1 ...",
+            n,
+            true,
+            |i, rep| {
+                let d = decode(i, &radices);
+                let m = RefMsg {
+                    version: 1,
+                    mtype: 0,
+                    token: vec![7],
+                    code: 0x03,
+                    mid: 14,
+                    options: vec![(if d[1] == 1 { 300 } else { 11 }, pattern(d[0] as usize, 3))],
+                    payload: if d[2] == 1 { vec![0x55] } else { vec![] },
+                };
+                limit_oracle("F6-option-length-sweep", i, n, &m, ctx, rep);
+            },
+        );
+    }
     // F5: many option instances (the per-option header bytes dominate): k values x length x number layout
     {
         let lens = [0usize, 3, 12, 13, 100, 268, 269, 300];
